@@ -197,6 +197,9 @@ pub struct GenOpts {
     pub expr_depth: u32,
     pub addresses: bool, // give instructions addresses
     pub div: bool,       // allow division operators
+    /// remove a non-last instruction from some blocks (Block::remove_instruction, as dead-code
+    /// elimination clients do), so that instruction INDICES differ from POSITIONS
+    pub gaps: bool,
 }
 impl Default for GenOpts {
     fn default() -> Self {
@@ -215,6 +218,7 @@ impl Default for GenOpts {
             expr_depth: 3,
             addresses: true,
             div: false,
+            gaps: true,
         }
     }
 }
@@ -380,6 +384,16 @@ pub fn gen_function(r: &mut Rng, o: &GenOpts, address: u64) -> Function {
                 if r.chance(3, 4) {
                     addr += 4;
                 }
+            }
+        }
+    }
+    if o.gaps && r.chance(1, 3) {
+        for bi in 0..nb {
+            let len = cfg.block(bi).unwrap().instructions().len();
+            if len >= 2 && r.chance(1, 2) {
+                let pos = r.below(len as u64 - 1) as usize;
+                let idx = cfg.block(bi).unwrap().instructions()[pos].index();
+                cfg.block_mut(bi).unwrap().remove_instruction(idx).unwrap();
             }
         }
     }
